@@ -5,7 +5,7 @@ import (
 )
 
 // C15 (lookup through a version): a key that lives in several files of a version is answered with
-// all of its values. The real version.FindFiles and snapshot.Load over 2-3 files on two levels with
+// all of its values. The real version.FindFiles and snapshot.Load over 2-3 files, each on level 0 or level 1 (so also two overlapping level-1 files), with
 // arbitrary (symbolic) key ranges, an arbitrary probe key and, per file, an arbitrary decision
 // whether the file holds the key (only possible inside its key range) and with which value byte:
 // the loader receives exactly the values of the files that hold the key, each once.
@@ -66,10 +66,9 @@ func verifC15Load() {
 			verifAssume(min <= key && key <= max) // a table's key range covers its keys (C15 table harness)
 		}
 		num := table.FileNumber(10 + i)
-		level := 0
-		if i == n-1 {
-			level = 1
-		}
+		// any file may be on either level: PickL0Compaction chooses the level-1 inputs per level-0 file,
+		// so the files of level 1 may overlap in their key ranges and a key may live in two of them
+		level := verifChoose("level", 2)
 		v.AddFile(level, NewFileMeta(num, min, max, 100))
 		cache.readers[Table(num)] = &verifLoadReader{has: has[i], key: key, value: vals[i]}
 	}
